@@ -3365,7 +3365,9 @@ impl Connection {
             );
             NewConnectionId {
                 sequence: issued.sequence,
-                retire_prior_to: self.local_cid_state.retire_prior_to(),
+                // A frame may be (re)transmitted after `retire_prior_to` has advanced past its
+                // sequence number; RFC 9000 §19.15 forbids Retire Prior To > Sequence Number.
+                retire_prior_to: cmp::min(self.local_cid_state.retire_prior_to(), issued.sequence),
                 id: issued.id,
                 reset_token: issued.reset_token,
             }
